@@ -67,6 +67,7 @@ func VerifH_grpc_recv() {
 	payload := vfBytes(avail)
 	wire := append(append([]byte{}, hdr...), payload...)
 	codec := &fakeCodec{name: "fake"}
+	codec.failNext = vfBool() // the payload may be undecodable
 	var comp Compressor
 	var fc *fakeCompressor
 	if vfBool() {
@@ -106,6 +107,11 @@ func VerifH_grpc_recv() {
 	for _, u := range codec.unmarshal {
 		vfCheck(len(u) <= limit, "a message larger than the receive limit reached the codec")
 	}
+	if codec.failNext {
+		vfCheck(err != nil, "RecvMsg succeeded although the codec rejected the payload")
+		vfCover("undecodable")
+		return
+	}
 	if err == nil {
 		vfCheck(len(codec.unmarshal) == 1, "RecvMsg succeeded without decoding exactly one message")
 		if !compressed {
@@ -144,6 +150,17 @@ func VerifH_grpc_send() {
 	sendLimit := vfInt(1, 6)
 	recvLimit := vfInt(1, 6)
 	n := vfLen(8)
+	compressed := vfBool()
+	if compressed {
+		// with a compressor the interesting sizes are 0 (nothing to compress) and those whose
+		// compressed form ends in the last bytes of the pooled 64-byte buffer
+		sendLimit, recvLimit = 80, 80
+		if vfBool() {
+			n = 54 + vfLen(10)
+		} else {
+			n = vfLen(3)
+		}
+	}
 	reply := newFakeMsg(schemaRoute())
 	reply.payload = vfBytes(n)
 	codec := &fakeCodec{name: "fake"}
@@ -156,6 +173,10 @@ func VerifH_grpc_send() {
 		wHeader:     map[string][]string{},
 		contentType: "application/grpc+fake",
 	}
+	if compressed {
+		s.comp = &vfMarkCompressor{}
+		s.messageEncoding = "zz"
+	}
 	var st *fakeStats
 	if vfBool() {
 		st = &fakeStats{}
@@ -164,11 +185,27 @@ func VerifH_grpc_send() {
 	err := s.SendMsg(reply)
 	if st != nil {
 		if err == nil {
-			vfCheck(len(st.outLen) == 1 && st.outLen[0] == n, "out-payload stats event missing or with a wrong length")
+			vfCheck(len(st.outLen) == 1, "out-payload stats event missing")
+			if !compressed {
+				vfCheck(st.outLen[0] == n, "out-payload stats event with a wrong length")
+			}
 			vfCover("stats-outpayload")
 		} else {
 			vfCheck(len(st.outLen) == 0, "out-payload stats event for a reply that was not sent")
 		}
+	}
+	if compressed {
+		vfCheck(err == nil, "compressed reply within the limits was refused")
+		vfCheck(len(w.buf) >= 5 && w.buf[0] == 1, "reply sent through a compressor is not flagged compressed")
+		got := int(uint32(w.buf[1])<<24 | uint32(w.buf[2])<<16 | uint32(w.buf[3])<<8 | uint32(w.buf[4]))
+		vfCheck(got == len(w.buf)-5, "frame length prefix differs from the payload length")
+		body := w.buf[5:]
+		vfCheck(len(body) >= 2 && body[0] == 'Z' && body[1] == ':' && vfBytesEq(body[2:], reply.payload), "compressed frame payload does not decompress to the reply")
+		vfCover("compressed")
+		if n == 0 {
+			vfCover("compressed-empty")
+		}
+		return
 	}
 	if n <= sendLimit {
 		vfCheck(err == nil, "reply within the send limit was refused")
